@@ -33,6 +33,7 @@ SETLIM = "minijinja::environment::Environment::set_recursion_limit"
 # nest before the limit trips; the debug-profile macro recursion already needs > 1 MiB of a 2 MiB stack
 REVIEWED = {
     "minijinja::vm::MACRO_RECURSION_COST": ("min", 4),
+    "minijinja::vm::BLOCK_RECURSION_COST": ("min", 4),
     "minijinja::vm::INCLUDE_RECURSION_COST": ("min", 10),
     "minijinja::environment::MAX_RECURSION": ("max", 500),
 }
@@ -62,6 +63,122 @@ def closure_host_call(prog, cl):
                     if norm_path(o.rv["closure"]) == cl.path:
                         return host, c
     return host, None
+
+
+STACK_LIMIT = 2 * 1024 * 1024
+
+# re-entry chains whose depth is not bounded by the recursion limit but by something else
+R5_EXEMPT = {
+    "minijinja::vm::Executor::perform_super": "super() depth is bounded by the number of block layers of the inheritance "
+                                              "chain (BlockStack::push fails at the top), not by the recursion limit",
+    "minijinja::vm::Executor::eval": "top-level entry, not recursive",
+}
+
+
+def stack_sizes(repo):
+    """{mangled symbol: frame size} of the minijinja rlib built with -Zemit-stack-sizes (debug profile)"""
+    import glob
+    import os
+    import re
+    import shutil
+    import subprocess
+    import tempfile
+    from ..facts import CACHE, nightly_sysroot, CheckerBroken, CONFIGS
+    os.makedirs(CACHE, exist_ok=True)
+    tgt = tempfile.mkdtemp(prefix="mjsa-stack-", dir=CACHE)
+    try:
+        env = dict(os.environ, RUSTFLAGS="-Zemit-stack-sizes -Awarnings", CARGO_TARGET_DIR=tgt, CARGO_NET_OFFLINE="true",
+                   CARGO_INCREMENTAL="0")
+        feats = CONFIGS["ORD"][-1]
+        r = subprocess.run(["cargo", "+nightly", "build", "--offline", "--lib", "-p", "minijinja", "--features", feats],
+                           cwd=repo, env=env, stdout=subprocess.PIPE, stderr=subprocess.STDOUT, text=True)
+        if r.returncode != 0:
+            raise CheckerBroken("stack-size build failed:\n" + r.stdout[-2000:])
+        rlibs = glob.glob(os.path.join(tgt, "debug", "deps", "libminijinja-*.rlib"))
+        if not rlibs:
+            raise CheckerBroken("no minijinja rlib produced")
+        bins = glob.glob(os.path.join(nightly_sysroot(), "lib", "rustlib", "*", "bin"))
+        if not bins:
+            raise CheckerBroken("llvm-tools not found in the nightly sysroot")
+        x = os.path.join(tgt, "x")
+        os.makedirs(x)
+        subprocess.check_call([os.path.join(bins[0], "llvm-ar"), "x", rlibs[0]], cwd=x)
+        out = {}
+        for o in glob.glob(os.path.join(x, "*.o")):
+            r = subprocess.run([os.path.join(bins[0], "llvm-readobj"), "--stack-sizes", o], stdout=subprocess.PIPE,
+                               stderr=subprocess.DEVNULL, text=True)
+            for m in re.finditer(r"Functions: \[([^\]]*)\]\s*\n\s*Size: (0x[0-9A-Fa-f]+)", r.stdout):
+                for sym in m.group(1).split(","):
+                    out[sym.strip()] = max(out.get(sym.strip(), 0), int(m.group(2), 16))
+        return out
+    finally:
+        shutil.rmtree(tgt, ignore_errors=True)
+
+
+def frame_of(sizes, type_ident, fn_ident):
+    """frame size of the inherent method `<..type_ident>::fn_ident` (v0 mangling: length-prefixed identifiers);
+    closures and generic instances are other symbols"""
+    t = "%d%s" % (len(type_ident), type_ident)
+    f = "%d%s" % (len(fn_ident), fn_ident)
+    best = None
+    for sym, sz in sizes.items():
+        if sym.startswith("_RNvM") and (t + f) in sym and not sym.startswith("_RNC"):
+            # the method itself ends right after the identifier (optionally a crate back-reference)
+            tail = sym.split(t + f)[-1]
+            if tail == "" or (tail.startswith("B") and tail.endswith("_")):
+                best = max(best or 0, sz)
+    return best
+
+
+def check_stack_lower_bound(ctx, prog):
+    """R5: even the lower bound of native stack use at the deepest recursion the limit admits must fit in 2 MiB"""
+    sizes = stack_sizes(ctx.repo)
+    ctx.floor("C11.R5 functions with a recorded frame size", len(sizes), 1000)
+    fe = frame_of(sizes, "Executor", "eval_impl")
+    ctx.need(fe is not None and fe > 1024, "C11.R5: frame size of eval_impl not found")
+    limit = prog.const_val("minijinja::environment::MAX_RECURSION")
+    ctx.analysed["R5 eval_impl frame bytes (debug)"] = fe
+    for f in prog.fns.values():
+        if f.path in CHAIN:
+            continue
+        for c in f.calls():
+            if c.name not in CHAIN:
+                continue
+            root = prog.fns.get(f.root) if f.kind == "closure" else f
+            if root is None:
+                continue
+            if root.path in R5_EXEMPT:
+                ctx.count("C11.R5 exempt chains")
+                continue
+            # cost charged per level on the most charged path: push_frame = 1, incr_depth = its constant
+            cost = 0
+            for g in [root] + prog.closures_of(root.path):
+                for k in g.calls():
+                    if k.name == PUSH:
+                        cost += 1
+                    elif k.name == INCR:
+                        v = 0
+                        for o in flow.origins(g, k.args[1]):
+                            if o.kind == "const" and "int" in o.const:
+                                v = max(v, int(o.const["int"]))
+                            if o.kind == "bin":
+                                for side in ("a", "b"):
+                                    for o2 in flow.origins(g, o.rv[side]):
+                                        if o2.kind == "const" and "int" in o2.const:
+                                            v = max(v, int(o2.const["int"]))
+                        cost += v
+                    elif k.name.endswith("Context::reset_with_frame"):
+                        cost += 1
+            cost = max(cost, 1)
+            levels = limit // cost
+            fr = frame_of(sizes, "Executor", root.path.split("::")[-1]) or 0
+            lower = levels * (fe + fr)
+            ctx.ob("C11.R5.limit-trips-before-the-stack-ends", root.path, lower <= STACK_LIMIT,
+                   "recursion through %s is charged %d per level, so the limit of %d admits %d nested interpreter "
+                   "frames; eval_impl needs %d bytes and %s %d bytes per level (debug profile): at least %d bytes "
+                   "of native stack, the 2 MiB of a spawned thread are %d" % (
+                       root.path.split("::")[-1], cost, limit, levels, fe, root.path.split("::")[-1], fr, lower, STACK_LIMIT),
+                   root.loc)
 
 
 def run(ctx):
@@ -241,6 +358,8 @@ def run(ctx):
         ctx.count("call graph nodes" + tag, len(g.succ))
         ctx.count("call graph edges" + tag, sum(len(v) for v in g.succ.values()))
         ctx.count("functions reachable from the interpreter" + tag, len(inner))
+        if cname == "MAX" and ctx.tier == "thorough":
+            check_stack_lower_bound(ctx, prog)
         if cname == "MAX":
             sccs = g.sccs(inner)
             inv = sorted(sorted(c)[0] + " (+%d)" % (len(c) - 1) for c in sccs if EI not in c)
